@@ -113,28 +113,95 @@ class Client:
         self.root = self.common.load_metadata_from_file(self.path)
 
 
-def replay_behaviour(hist, seed, workdir, idx):
+class CliClient(Client):
+    """The same loop driven through the command line: `verify-metadata <trusted file> <offered file>`; the offered file becomes the
+    trusted one exactly when the command's exit status is 0 (`sys.exit(cli())`: a returned None is status 0)."""
+
+    def __init__(self, world, workdir, r):
+        super().__init__(world, workdir, r)
+        self.cli = lib.cct("cli")
+        self.n = 0
+
+    def offer(self, env):
+        self.n += 1
+        tp = os.path.join(self.dir, "cli-trusted-%d.json" % os.getpid())
+        op = os.path.join(self.dir, "cli-offered-%d.json" % os.getpid())
+        with open(tp, "wb") as f:
+            f.write(twin_canon(self.root))
+        with open(op, "wb") as f:
+            f.write(twin_canon(env) if isinstance(env, (dict, list)) else env)
+        status = []
+
+        def go():
+            try:
+                rc = self.cli.cli(["verify-metadata", tp, op])
+            except SystemExit as e:
+                rc = e.code
+            status.append(0 if rc is None else rc)
+        out, exc, _ = lib.call(go)
+        if out == "accept":
+            out = "accept" if status and status[0] == 0 else f"exit:{status[0] if status else '?'}"
+        with open(tp, "rb") as f:
+            mutated = f.read() != twin_canon(self.root)
+        if out == "accept":
+            self.root = self.common.load_metadata_from_file(op)
+        return out, exc, mutated
+
+
+def malform(env, r):
+    """Something that is not a signed envelope around the same content and signatures."""
+    e = copy.deepcopy(env)
+    k = r.randrange(6)
+    if k == 0:
+        e["note"] = "padding"
+    elif k == 1:
+        e["signatures"] = [e["signatures"]]
+    elif k == 2:
+        e["signatures"] = list(e["signatures"].items())
+    elif k == 3:
+        e = [e]
+    elif k == 4:
+        e["signed "] = e["signed"]
+    else:
+        e[""] = None
+    return e
+
+
+def replay_behaviour(hist, seed, workdir, idx, client="api"):
     """Step one TLC behaviour through the real client; returns list of discrepancies."""
     r = random.Random(seed * 1000003 + idx)
     w = World(4, seed, salt=f"b{idx}", base=r.choice(metadata.VERSION_BASES))
-    cl = Client(w, workdir, r)
+    cl = (CliClient if client == "cli" else Client)(w, workdir, r)
     bad = []
     n_exec = 0
     for i, ev in enumerate(hist):
         a = ev["a"]
-        if a == "offer":
+        if a in ("offer", "offer_malformed"):
             env = w.envelope(ev["content"], ev["signers"], r)
             if r.random() < 0.3:   # on-path padding of the unsigned part never matters
                 env["signatures"][gamma.junk_name(r)] = {"signature": "0" * 128}
+            if a == "offer_malformed":
+                env = malform(env, r)
             out, exc, mutated = cl.offer(env)
             n_exec += 1
-            after = cl.w.alpha(cl.root)
-            if lib.family(out) not in ev["allowed"]:
+            try:
+                after = cl.w.alpha(cl.root)
+            except Exception as e:  # noqa: BLE001 - the client installed something that is not even root metadata
+                after = {"not root metadata": type(e).__name__}
+            if client == "cli":      # the command line reports a status, not an exception class: only accepted / not accepted is compared
+                okc = (out == "accept") == (ev["allowed"] == ["accept"]) if len(ev["allowed"]) == 1 or "accept" not in ev["allowed"] else True
+                if not okc:
+                    bad.append({"step": i, "why": "outcome (command line)", "observed": out, "exc": exc, "allowed": ev["allowed"], "event": ev})
+                elif after != norm(ev["after"]):
+                    bad.append({"step": i, "why": "post-state (command line)", "observed": out, "after": after, "event": ev})
+            elif lib.family(out) not in ev["allowed"]:
                 bad.append({"step": i, "why": "outcome", "observed": out, "exc": exc, "allowed": ev["allowed"], "event": ev})
             elif after != norm(ev["after"]):
                 bad.append({"step": i, "why": "post-state", "observed": out, "after": after, "event": ev})
             if mutated:
                 bad.append({"step": i, "why": "trusted root mutated by verify_root", "observed": out, "event": ev})
+            if bad:
+                break                  # the client has left the specified behaviour: later steps say nothing more
         elif a == "persist":
             cl.persist()
             n_exec += 1
@@ -162,6 +229,9 @@ def simulate_and_replay(run, num, depth, owner_label="C04"):
     kinds = {}
     for idx, h in enumerate(behaviours):
         bad, n = replay_behaviour(h, run.seed, workdir, idx)
+        if idx % 2 == 0:      # every second behaviour again with the command-line client
+            bad2, n2 = replay_behaviour(h, run.seed, workdir, idx, client="cli")
+            bad, n = bad + bad2, n + n2
         run.evaluations += n
         run._distinct.add("b" + str(hash(json.dumps(h, sort_keys=True))))
         for ev in h:
